@@ -7,6 +7,7 @@ import (
 	"fmt"
 	"io/ioutil"
 	"os"
+	"path"
 	"path/filepath"
 	"sort"
 	"strings"
@@ -29,6 +30,12 @@ import (
 //
 // Every other file is listed in Files and in both checksum sections, as in a real .dsc / .changes.
 func init() {
+	// the path functions the library relies on (Go standard library): path.Clean, path.Join, filepath.Base / Dir / Ext
+	ops["pclean"] = func(a []string) string { return hx(path.Clean(arg(a, 0))) }
+	ops["pjoin"] = func(a []string) string { return hx(path.Join(arg(a, 0), arg(a, 1))) }
+	ops["pbase"] = func(a []string) string { return hx(filepath.Base(arg(a, 0))) }
+	ops["pdir"] = func(a []string) string { return hx(filepath.Dir(arg(a, 0))) }
+	ops["pext"] = func(a []string) string { return hx(filepath.Ext(arg(a, 0))) }
 	ops["upload"] = func(a []string) string {
 		kind, op, ctlname, ctlstate := arg(a, 0), arg(a, 1), arg(a, 2), arg(a, 3)
 		root, err := ioutil.TempDir("/var/tmp", "verif-upload-")
